@@ -1,0 +1,19 @@
+//go:build verif
+// +build verif
+
+package blockchain
+
+import "github.com/dappledger/AnnChain/gemmill/types"
+
+// VerifAfterVerify lets the verification harness run f (with the block's height) each time fast sync has
+// accepted the commit of a block, before the block is taken out of the pool and executed (call it before Start).
+func (bcR *BlockchainReactor) VerifAfterVerify(f func(height int64)) {
+	verify := bcR.blockVerifier
+	bcR.blockVerifier = func(id types.BlockID, h int64, c *types.Commit) error {
+		err := verify(id, h, c)
+		if err == nil {
+			f(h)
+		}
+		return err
+	}
+}
